@@ -149,7 +149,7 @@ func c03Labels(d ttmlDoc, r *ttmlRendering) (bool, []string) {
 	add(anon, "anonymous-text")
 	if r != nil {
 		add(contSpan && r.BrInSpan, "br-inside-span")
-	add(emptyLine, "empty-line")
+		add(emptyLine, "empty-line")
 		add(r.Indent != "", "indented")
 		add(r.StylePfx != "tts", "prefix-variation")
 		add(r.EOL == "\r\n" && r.Indent != "", "crlf")
